@@ -356,6 +356,7 @@ func runC08(c *Ctx) {
 	c08Delivery(c, provs)
 	c08EachBoundOnItsOwn(c, provs)
 	c08RingPassCounter(c, provs)
+	c08ScannerSameOnEveryPass(c)
 	c08CtxErrors(c, provs)
 }
 
@@ -1968,4 +1969,155 @@ func c08RingPassCounter(c *Ctx, provs []*provider) {
 		}
 	}
 	c.Floor("O8.10", "pass-counter increments in ring walks", n, 1)
+}
+
+
+// ---- O8.11
+
+// scannerConfig describes how a *bufio.Scanner value was set up: the token limit given to Buffer (absent = the
+// library default bufio.MaxScanTokenSize) and the split function given to Split (absent = ScanLines).
+func scannerConfig(v ssa.Value, fld *types.Var, depth int) (string, bool) {
+	v = Strip(v)
+	cl, _ := v.(*ssa.Call)
+	if cl == nil {
+		return "", false
+	}
+	if !MatchCC(&cl.Call, Spec{"bufio", "", "NewScanner"}) {
+		// a helper of pandora that makes the scanner: every scanner it returns, as set up inside it
+		g := cl.Call.StaticCallee()
+		if g == nil || len(g.Blocks) == 0 || depth > 2 {
+			return "", false
+		}
+		sig, have := "", false
+		for _, b := range g.Blocks {
+			r, isRet := b.Instrs[len(b.Instrs)-1].(*ssa.Return)
+			if !isRet {
+				continue
+			}
+			for _, res := range r.Results {
+				if p, n := NamedOf(res.Type()); p != "bufio" || n != "Scanner" {
+					continue
+				}
+				for _, root := range Roots(res, false) {
+					s1, ok := scannerConfig(root, nil, depth+1)
+					if !ok || (have && s1 != sig) {
+						return "", false
+					}
+					sig, have = s1, true
+				}
+			}
+		}
+		return sig, have
+	}
+	limit, split := "65536", "ScanLines"
+	ok := true
+	EachInstr(cl.Parent(), func(in ssa.Instruction) {
+		c2, isCall := in.(*ssa.Call)
+		if !isCall || !MatchCC(&c2.Call, Spec{"bufio", "Scanner", "Buffer"}, Spec{"bufio", "Scanner", "Split"}) {
+			return
+		}
+		recv := Strip(c2.Call.Args[0])
+		same := recv == ssa.Value(cl)
+		if !same && fld != nil {
+			if fv, _ := FieldOf(recv); fv == fld {
+				same = true
+			}
+		}
+		if !same {
+			for _, root := range Roots(recv, false) {
+				if root == ssa.Value(cl) {
+					same = true
+				}
+			}
+		}
+		if !same {
+			return
+		}
+		arg := Strip(c2.Call.Args[len(c2.Call.Args)-1])
+		key := ""
+		if k, isK := ConstInt(arg); isK {
+			key = fmt.Sprint(k)
+		} else if f, isF := arg.(*ssa.Function); isF {
+			key = f.Name()
+		} else {
+			for _, root := range Roots(arg, false) {
+				if fv, _ := FieldOf(root); fv != nil {
+					key += fv.Name() + ";"
+				} else {
+					ok = false
+				}
+			}
+			if key == "" {
+				ok = false
+			}
+		}
+		if CalleeObj(&c2.Call).Name() == "Buffer" {
+			limit = key
+		} else {
+			split = key
+		}
+	})
+	return "token limit " + limit + ", split " + split, ok
+}
+
+func c08ScannerSameOnEveryPass(c *Ctx) {
+	c.Rule("O8.11", "every pass reads the source the same way: a decoder that keeps a *bufio.Scanner in a field and replaces it when it rewinds the source sets the new scanner up like the first one - same token limit (Buffer; absent = bufio.MaxScanTokenSize) and same split function - so that an entry the first pass delivered (a long line) is not an error in a later pass")
+	P := c.P
+	type site struct {
+		st  *ssa.Store
+		sig string
+		ok  bool
+	}
+	byField := map[*types.Var][]site{}
+	var order []*types.Var
+	for _, rel := range []string{"components/providers/http/decoders", "components/providers/grpc/grpcjson", "components/providers/http/provider", "components/providers/http"} {
+		sp := P.SSAPkg(rel)
+		if sp == nil {
+			continue
+		}
+		for _, fn := range PkgFuncs(sp) {
+			if !IsProdFile(P.File(fn.Pos())) {
+				continue
+			}
+			EachInstr(fn, func(in ssa.Instruction) {
+				st, isSt := in.(*ssa.Store)
+				if !isSt {
+					return
+				}
+				fv, _ := FieldOf(st.Addr)
+				if fv == nil {
+					return
+				}
+				if p, n := NamedOf(fv.Type()); p != "bufio" || n != "Scanner" {
+					return
+				}
+				if _, isNil := Strip(st.Val).(*ssa.Const); isNil {
+					return
+				}
+				sig, ok := scannerConfig(st.Val, fv, 0)
+				if _, seen := byField[fv]; !seen {
+					order = append(order, fv)
+				}
+				byField[fv] = append(byField[fv], site{st, sig, ok})
+			})
+		}
+	}
+	n := 0
+	for _, fv := range order {
+		sites := byField[fv]
+		if len(sites) < 2 {
+			continue
+		}
+		n++
+		first := sites[0]
+		for _, s := range sites {
+			k := fk(s.st.Parent()) + ":" + fv.Name() + "-set-up-like-the-first-scanner"
+			if !s.ok || !first.ok {
+				c.Unknown("O8.11", k, s.st.Pos(), "cannot read how this scanner is set up")
+				continue
+			}
+			c.Check(s.sig == first.sig, "O8.11", k, s.st.Pos(), fmt.Sprintf("this scanner: %s; the one made at %s: %s", s.sig, P.Pos(first.st.Pos()), first.sig))
+		}
+	}
+	c.Floor("O8.11", "scanner fields that are replaced after construction", n, 1)
 }
